@@ -247,6 +247,164 @@ def _is_height_link(x: Term, h: Term, ph: Term) -> bool:
     return False
 
 
+STEP_ROOTS = ["skepticoin.networking.manager.NetworkManager.step", "skepticoin.networking.manager.ChainManager.step"]
+
+
+def step_reachable(ck: Check) -> List[str]:
+    """functions of the networking package (and the chain-state accessors) that the managers' own steps reach: they run outside every
+    per-connection handler, so whatever fails in them ends LocalPeer.run"""
+    cg = call_graph(ck)
+    callees: Dict[str, Set[str]] = {}
+    for callee, cs in cg.items():
+        for c in cs:
+            callees.setdefault(c, set()).add(callee)
+    seen = set(r for r in STEP_ROOTS if r in ck.repo.functions)
+    stack = list(seen)
+    while stack:
+        f = stack.pop()
+        for g in callees.get(f, ()):
+            if g in ck.repo.functions and g not in seen:
+                seen.add(g)
+                stack.append(g)
+    return sorted(f for f in seen if f.startswith("skepticoin.networking.") or f.startswith("skepticoin.coinstate."))
+
+
+def partial_operations(fn: ast.AST) -> List[Tuple[str, int, str]]:
+    """(kind, line, text) of the operations in a function body that fail on some inputs and that nothing around them absorbs or guards:
+    look-ups by key / index, raise, assert, choice / pop / remove / index, next / max / min of one argument, division by a non-constant"""
+    parents: Dict[int, ast.AST] = {}
+    for n in ast.walk(fn):
+        for c in ast.iter_child_nodes(n):
+            parents[id(c)] = n
+
+    def up(n: ast.AST):     # type: ignore
+        p = parents.get(id(n))
+        while p is not None:
+            yield p
+            p = parents.get(id(p))
+
+    def absorbed(n: ast.AST) -> bool:
+        child = n
+        for p in up(n):
+            if isinstance(p, ast.Try) and any(child is x for x in p.body):
+                for h in p.handlers:
+                    names = [h.type] if h.type is not None and not isinstance(h.type, ast.Tuple) else (list(h.type.elts) if h.type is not None else [])
+                    broad = h.type is None or any(isinstance(x, ast.Name) and x.id in ("Exception", "BaseException", "KeyError", "LookupError", "IndexError") for x in names)
+                    if broad and not any(isinstance(x, ast.Raise) for st in h.body for x in ast.walk(st)):
+                        return True
+            child = p
+        return False
+
+    def membership_guard(sub: ast.Subscript) -> bool:
+        m, k = ast.unparse(sub.value), ast.unparse(sub.slice)
+        child: ast.AST = sub
+        for p in up(sub):
+            if isinstance(p, (ast.If, ast.IfExp, ast.While)) and not any(child is x for x in ([p.test] if hasattr(p, "test") else [])):
+                in_body = child is getattr(p, "body", None) or (isinstance(getattr(p, "body", None), list) and any(child is x for x in p.body))
+                for t in ast.walk(p.test):
+                    if isinstance(t, ast.Compare) and len(t.ops) == 1 and ast.unparse(t.left) == k and ast.unparse(t.comparators[0]) == m:
+                        if (isinstance(t.ops[0], ast.In) and in_body) or (isinstance(t.ops[0], ast.NotIn) and not in_body):
+                            return True
+            if isinstance(p, (ast.For, ast.comprehension)) and ast.unparse(p.target) == k and ast.unparse(p.iter) in (m, m + ".keys()", "sorted(%s)" % m, "list(%s)" % m):
+                return True
+            if isinstance(p, (ast.ListComp, ast.SetComp, ast.DictComp, ast.GeneratorExp)):
+                for g in p.generators:
+                    if ast.unparse(g.target) == k and ast.unparse(g.iter) in (m, m + ".keys()", "sorted(%s)" % m, "list(%s)" % m):
+                        return True
+            child = p
+        return False
+
+    out: List[Tuple[str, int, str]] = []
+    ann: Set[int] = set()
+    for n in ast.walk(fn):
+        for fld in ("annotation", "returns"):
+            a = getattr(n, fld, None)
+            if isinstance(a, ast.AST):
+                ann |= {id(x) for x in ast.walk(a)}
+    for n in ast.walk(fn):
+        if id(n) in ann:
+            continue
+        item: Optional[Tuple[str, str]] = None
+        if isinstance(n, ast.Subscript) and isinstance(n.ctx, (ast.Load, ast.Del)) and not isinstance(n.slice, ast.Slice):
+            base = ast.unparse(n.value)
+            if base.split(".")[0] in ("List", "Dict", "Set", "Tuple", "Optional", "Type", "Mapping", "Iterator", "Callable", "immutables", "typing"):
+                continue
+            if isinstance(n.value, (ast.Tuple, ast.List, ast.Dict, ast.Constant)):
+                continue
+            if not membership_guard(n):
+                item = ("look-up", ast.unparse(n)[:70])
+        elif isinstance(n, ast.Raise) and n.exc is not None:
+            item = ("raise", ast.unparse(n.exc)[:50])
+        elif isinstance(n, ast.Assert):
+            item = ("assert", ast.unparse(n.test)[:50])
+        elif isinstance(n, ast.Call) and isinstance(n.func, ast.Name) and n.func.id in ("next", "max", "min") and len(n.args) == 1 \
+                and not any(k.arg == "default" for k in n.keywords) and not (n.func.id == "next" and len(n.args) == 2):
+            item = ("empty-argument", ast.unparse(n)[:60])
+        elif isinstance(n, ast.Call) and isinstance(n.func, ast.Attribute) and n.func.attr in ("choice", "pop", "remove", "index", "popitem", "unpack"):
+            if n.func.attr == "pop" and len(n.args) == 2:
+                continue
+            item = ("choice/pop/remove/index", ast.unparse(n)[:60])
+        elif isinstance(n, ast.BinOp) and isinstance(n.op, (ast.Div, ast.FloorDiv, ast.Mod)) and not isinstance(n.right, ast.Constant) \
+                and not isinstance(n.left, (ast.Constant, ast.JoinedStr)):
+            # (a module constant as divisor is a constant; `TEMPLATE % x` with a constant name on the left is string formatting)
+            if (isinstance(n.right, ast.Name) and n.right.id.isupper()) or (isinstance(n.left, ast.Name) and n.left.id.isupper()) \
+                    or isinstance(n.right, (ast.Tuple, ast.Dict)):
+                continue
+            item = ("division", ast.unparse(n)[:60])
+        if item is not None and not absorbed(n):
+            out.append((item[0], getattr(n, "lineno", 0), item[1]))
+    return out
+
+
+def r20_15(ck: Check) -> None:
+    """the managers' steps run outside every per-connection handler and read state that peers have influenced (D6): they gain no
+    operation that can fail beyond those recorded and reviewed (reference/step_partials.json, per kind; moving code between helpers
+    changes nothing, a guarded look-up or one inside a non-re-raising handler does not count)"""
+    import json
+    import os
+    from ..engine.report import VERIF_ROOT
+    ctl = ast.parse("def f(self, m, k, xs):\n    if k in m:\n        a = m[k]\n    b = m[k]\n    try:\n        c = xs[0]\n    except Exception:\n        c = None\n    return random.choice(xs)\n").body[0]
+    got_ctl = sorted(k for k, _l, _t in partial_operations(ctl))
+    if got_ctl != ["choice/pop/remove/index", "look-up"]:
+        ck.unknown("R20.15", "positive control", "the scan for failing operations found %s in its control snippet" % got_ctl)
+        return
+    ref = json.load(open(os.path.join(VERIF_ROOT, "reference", "step_partials.json")))
+    fns = step_reachable(ck)
+    totals: Dict[str, int] = {}
+    sites: Dict[str, List[Tuple[str, int, str]]] = {}
+    for q in fns:
+        fi = ck.repo.functions[q]
+        for kind, line, text in partial_operations(ck.repo.raw_function(fi)):
+            totals[kind] = totals.get(kind, 0) + 1
+            sites.setdefault(kind, []).append((q, line, text))
+    ck.stats["functions the managers' steps reach"] = len(fns)
+    ck.stats["operations that can fail in them"] = dict(sorted(totals.items()))
+    if len(fns) < 20:
+        ck.unknown("R20.15", "instances", "only %d functions found below the managers' steps" % len(fns))
+        return
+    from .common import partial_on_empty
+    for q in fns:
+        fi = ck.repo.functions[q]
+        for line, text in partial_on_empty(ck.repo.raw_function(fi), with_choice=True):
+            ck.violated("R20.15", "%s: %s has a non-empty argument" % (short(q), text),
+                        "it raises on an empty argument and nothing before it rules that out — in the managers' own steps that ends the event loop "
+                        "(no peer to ask, nothing to pick from: an ordinary state, e.g. right after start or when every peer has just answered)",
+                        "%s:%d" % (fi.module.path, line))
+    bad = False
+    for kind in sorted(set(totals) | set(ref["totals"])):
+        construct = "the managers' own steps contain no %s operation beyond the %d reviewed" % (kind, ref["totals"].get(kind, 0))
+        if totals.get(kind, 0) > ref["totals"].get(kind, 0):
+            bad = True
+            known = {(r_[0], r_[2]) for r_ in ref["sites"].get(kind, [])}
+            new = [s_ for s_ in sites[kind] if (s_[0], s_[2]) not in known] or sites[kind]
+            for q, line, text in new[:3]:
+                ck.violated("R20.15", construct, "`%s` in %s can fail, and nothing between it and LocalPeer.run absorbs that: the event loop ends for "
+                            "every connection (the steps read state that peers have influenced)" % (text, short(q)),
+                            "%s:%d" % (ck.repo.functions[q].module.path, line))
+        else:
+            ck.ok("R20.15", construct, "%d found" % totals.get(kind, 0), "")
+
+
 def r20_3(ck: Check) -> None:
     s = ck.summ(CRP + "handle_message_received", 0)
     sp = Spec(s, ("self", "header", "message"))
@@ -707,6 +865,7 @@ def check(ck: Check) -> None:
     ck.run("R20.12", "the catch-all's handlers cannot fail themselves", lambda: r20_12(ck))
     ck.run("R20.13", "what a peer says never re-files a connection", lambda: r20_13(ck))
     ck.run("R20.14", "a delivered block is applied only with its height linked to its parent's", lambda: r20_14(ck))
+    ck.run("R20.15", "the managers' own steps gain no operation that can fail", lambda: r20_15(ck))
     ck.run("R20.8", "the event loop ends only through its flag, dispatches every ready socket, and never waits unboundedly", lambda: r20_8(ck))
     from .c09 import r09_5
     ck.run("R09.5", "buffering a block before validation writes nothing", lambda: r09_5(ck))
@@ -715,5 +874,5 @@ def check(ck: Check) -> None:
     from .c19 import r19_6
     ck.run("R20.6", "peer-supplied addresses are sanitised before they reach code outside the catch-all", lambda: r19_6(ck, "R20.6"))
     ck.note("not armed (timing is a runtime quantity): the VLQ reader accumulates an unbounded int; a 32 MiB run of continuation bytes makes decoding quadratic")
-    ck.note("residual escape routes outside this property's input class: handle_incoming_connection (accept / getpeername re-raise) and the manager steps run "
-            "outside the catch-all and end the loop through run()'s handler if they raise; they process no peer payload")
+    ck.note("residual escape routes: handle_incoming_connection (accept / getpeername re-raise) runs outside the catch-all and processes no peer payload; the "
+            "manager steps run outside it too and DO read state that peers influence - see R20.14 / R20.15")
